@@ -187,7 +187,7 @@ func unkGenField(c *Ctx, md protoreflect.MessageDescriptor, pad bool) []byte {
 
 // unkInject inserts unknown fields between the fields of b (an encoding for md), also inside the
 // payloads of known message-typed fields (lengths are re-encoded) and known groups.
-func unkInject(c *Ctx, md protoreflect.MessageDescriptor, b []byte, depth int, pad bool) []byte {
+func unkInject(c *Ctx, md protoreflect.MessageDescriptor, b []byte, depth int, pad, slow bool) []byte {
 	chunks, ok := unkSplit(b)
 	if !ok {
 		return b
@@ -202,17 +202,23 @@ func unkInject(c *Ctx, md protoreflect.MessageDescriptor, b []byte, depth int, p
 		maybe()
 		fd := msgFindField(md, ch.num)
 		if fd != nil && !fd.IsMap() && fd.Message() != nil && msgFieldAccepts(fd, ch.typ) && depth > 0 && c.Intn(2) == 0 {
+			pad := pad
+			if slow && fd.IsExtension() {
+				// the value of a registered extension is a generated message even inside dynamicpb:
+				// it is decoded by the table-driven path, which re-encodes unknown tags minimally
+				pad = false
+			}
 			switch ch.typ {
 			case protowire.BytesType:
 				if p, n := protowire.ConsumeBytes(ch.val); n >= 0 {
-					p2 := unkInject(c, fd.Message(), p, depth-1, pad)
+					p2 := unkInject(c, fd.Message(), p, depth-1, pad, slow)
 					out = append(out, ch.tag...)
 					out = protowire.AppendBytes(out, p2)
 					continue
 				}
 			case protowire.StartGroupType:
 				if p, n := protowire.ConsumeGroup(ch.num, ch.val); n >= 0 {
-					p2 := unkInject(c, fd.Message(), p, depth-1, pad)
+					p2 := unkInject(c, fd.Message(), p, depth-1, pad, slow)
 					out = append(out, ch.tag...)
 					out = append(out, p2...)
 					out = protowire.AppendTag(out, ch.num, protowire.EndGroupType)
@@ -378,7 +384,7 @@ func unkOne(c *Ctx, t *w2aTarget) {
 	pad := c.Bool()
 	bi := b0
 	if c.Intn(4) != 0 {
-		bi = unkInject(c, fl.md, b0, 3, pad)
+		bi = unkInject(c, fl.md, b0, 3, pad, fl.slow)
 	}
 	c.Stat("value_" + fl.name)
 	eager := proto.UnmarshalOptions{NoLazyDecoding: true}
